@@ -417,8 +417,10 @@ int filter_fix_linedirs (struct filter *chain)
 			last_was_blank = false;
 		}
 
-		/* squeeze blank lines from generated code */
-		else if (in_gen && is_blank_line(buf)) {
+		/* squeeze blank lines from generated code; without line
+		 * directives there is no telling user code from generated code
+		 */
+		else if (in_gen && ctrl.gen_line_dirs && is_blank_line(buf)) {
 			if (last_was_blank)
 				continue;
 			else
